@@ -236,6 +236,49 @@ def run_api(ctx, L, icu, idx, ntriples):
                 if rc3 != CIF_OK or len(names) != (1 if same else 2):
                     ctx.violation('match:packet:set:%s' % ('missed' if same else 'false-hit'), 'packet with %s, set %s: rc %d, names now %r' % (cps(s), cps(u), rc3, [cps(n) for n in names]), info)
                 L.packet_free(p)
+                # a loop whose item was declared under one spelling takes packets, and updates through an iterator,
+                # that name it under another - or refuses them with CIF_WRONG_LOOP when the names differ
+                rc, b = L.create_block(cif, 'lhost%d' % t)
+                rc, lp = L.create_loop(b, None, ['_' + s, '_other'])
+                if rc != CIF_OK:
+                    ctx.violation('match:loop:create:%d' % rc, 'create_loop(%s) -> %d' % (cps('_' + s), rc), info)
+                else:
+                    v1 = L.make_value(('char', 'first', True))
+                    v2 = L.make_value(('char', 'second', True))
+                    rc, p = L.packet_create(['_' + u])
+                    L.packet_set(p, '_' + u, v1)
+                    rca = L.loop_add_packet(lp, p)
+                    if (rca == CIF_OK) != same or (not same and rca != CIF_WRONG_LOOP):
+                        ctx.violation('match:loop:add_packet:%s' % ('missed' if same else 'false-hit'), 'loop of %s, packet naming %s: add_packet -> %d' % (cps(s), cps(u), rca), info)
+                    if rca != CIF_OK:
+                        rc, p0 = L.packet_create(['_' + s])
+                        L.packet_set(p0, '_' + s, v1)
+                        L.loop_add_packet(lp, p0)
+                        L.packet_free(p0)
+                    rci, it = L.loop_get_packets(lp)
+                    if rci == CIF_OK:
+                        rcn, pk = L.it_next(it, 'new')
+                        if pk:
+                            L.packet_free(pk)
+                        L.packet_set(p, '_' + u, v2)
+                        rcu = L.it_update(it, p)
+                        rcc = L.it_close(it)
+                        rcg, got = L.get_value(b, '_' + s)
+                        val = L.read_value(got) if got else None
+                        if got:
+                            L.value_free(got)
+                        ctx.count('iterator_update_cases')
+                        if (rcu == CIF_OK) != same or (not same and rcu != CIF_WRONG_LOOP) or rcn != CIF_OK or rcc != CIF_OK:
+                            ctx.violation('match:pktitr:update:%s' % ('missed' if same else 'false-hit'), 'loop of %s, update with a packet naming %s: next %d, update %d, close %d' % (cps(s), cps(u), rcn, rcu, rcc), info)
+                        elif val is None or val[1] != ('second' if same else 'first'):
+                            ctx.violation('match:pktitr:update:value', 'loop of %s updated under %s (rc %d): the item now reads %r' % (cps(s), cps(u), rcu, val), info)
+                    else:
+                        ctx.violation('match:loop:get_packets:%d' % rci, 'cif_loop_get_packets -> %d' % rci, info)
+                    L.packet_free(p)
+                    L.value_free(v1)
+                    L.value_free(v2)
+                    L.loop_free(lp)
+                L.container_destroy(b)
             # (c) table keys: canonical equivalence only
             if t % 3 == 0:
                 k1, k2 = s, u
@@ -519,7 +562,7 @@ def run(env):
             samples=res.samples, scalar_sweep_exhaustive=True, scalar_values=res.count('scalars'),
             normalizations=res.count('normalizations'), pair_strings=res.count('pair_strings'),
             srclen_cases=res.count('srclen_cases'), api_triples=res.count('api_triples'),
-            table_key_cases=res.count('table_key_cases'), parser_duplicate_cases=res.count('parser_duplicate_cases'), validity_cases=res.count('validity_cases'),
+            table_key_cases=res.count('table_key_cases'), loop_and_iterator_update_cases=res.count('iterator_update_cases'), parser_duplicate_cases=res.count('parser_duplicate_cases'), validity_cases=res.count('validity_cases'),
             big_table_keys=res.count('big_table_keys'), big_packet_names=res.count('big_packet_names'),
             parser_created_code_cases=res.count('parser_created_code_cases'), parser_created_code_not_created=res.count('parser_created_code_not_created'),
             icu_unicode_version=sorted(res.sets.get('unicode_version', ())), crashes=res.crashes),
